@@ -31,7 +31,7 @@ fn allowed(f: &Func, contracts: &serde_json::Value) -> Result<(), String> {
     }
     match f.trait_.as_deref() {
         None => Ok(()),
-        Some(t) if STD_OPS.contains(&t) || INHERENT_TRAITS.contains(&t) || t == "Clone" => Ok(()),
+        Some(t) if STD_OPS.contains(&t) || INHERENT_TRAITS.contains(&t) || t == "Clone" || t == "ComplexField" || t == "RealField" => Ok(()),
         Some(t) => Err(format!("trait {t} not in this unit")),
     }
 }
@@ -183,7 +183,8 @@ fn ensures_for(db: &Db, mname: &str, k: &Kind, root: &str, prefix: &str, ps: &[P
 
 fn table_requires(contracts: &serde_json::Value, f: &Func, second_kind: &str, mutself: bool, p1: &str) -> Vec<String> {
     let mut v = vec![];
-    let entry = &contracts["requires"][f.name.as_str()];
+    let key = format!("{}{}", f.prefix, f.name);
+    let entry = &contracts["requires"][key.as_str()];
     if entry.is_null() {
         return v;
     }
@@ -328,6 +329,10 @@ pub fn emit_unit(db: &Db, contracts: &serde_json::Value, unit: &str) -> UnitOut 
                 .join(" && ");
             def.push_str(&format!(" impl {unit} {{ pub open spec fn wf(&self) -> bool {{ {wf} }} }}"));
         }
+        if !vec_unit {
+            // the scalar types derive Copy (for Copy scalars); the model scalar is Copy as f32/f64 are
+            def.push_str(&format!(" impl Copy for {unit} {{}}"));
+        }
         exec.push_str(&def);
         exec.push('\n');
     }
@@ -413,6 +418,27 @@ pub fn emit_unit(db: &Db, contracts: &serde_json::Value, unit: &str) -> UnitOut 
             }
         }
         let mut rw = Rw::new(ints);
+        if !f.prefix.is_empty() {
+            for g in db.funcs.iter().filter(|g| g.ty == f.ty && !g.prefix.is_empty()) {
+                rw.field_methods.insert(g.name.clone(), format!("{}{}", g.prefix, g.name));
+            }
+            for a in &f.item.sig.inputs {
+                match a {
+                    FnArg::Receiver(r) if r.reference.is_none() => {
+                        rw.field_recv.insert("self".into());
+                    }
+                    FnArg::Typed(pt) => {
+                        if let (syn::Pat::Ident(i), syn::Type::Path(tp)) = (&*pt.pat, &*pt.ty) {
+                            let last = tp.path.segments.last().map(|s| s.ident.to_string()).unwrap_or_default();
+                            if last == "Self" || last == "RealField" {
+                                rw.field_recv.insert(i.ident.to_string());
+                            }
+                        }
+                    }
+                    _ => {}
+                }
+            }
+        }
         for g in &f.impl_generics {
             if g != "T" && g != "F" {
                 rw.dims.insert(g.clone());
@@ -433,7 +459,7 @@ pub fn emit_unit(db: &Db, contracts: &serde_json::Value, unit: &str) -> UnitOut 
             continue;
         }
         let mut body = block.to_token_stream().to_string();
-        let hint = contracts["hints"][f.name.as_str()].as_str().map(|h| format!("proof {{ {h} }} ")).unwrap_or_default();
+        let hint = contracts["hints"][format!("{}{}", f.prefix, f.name).as_str()].as_str().map(|h| format!("proof {{ {h} }} ")).unwrap_or_default();
         if mut_self_by_value {
             body = format!("{{ {hint}let mut self_ = self; {} }}", &body[1..body.len() - 1]);
         } else if !hint.is_empty() {
@@ -530,7 +556,7 @@ pub fn emit_unit(db: &Db, contracts: &serde_json::Value, unit: &str) -> UnitOut 
         let has_ret = ret_ty != "()";
         let ret_decl = if has_ret { format!(" -> ({RES}: {ret_ty})") } else { String::new() };
         let ens_txt = if ens.is_empty() { String::new() } else { format!(" ensures {}", ens.join(", ")) };
-        let fn_name = f.name.clone();
+        let fn_name = format!("{}{}", f.prefix, f.name);
 
         let start_line = exec.lines().count() + 1;
         let header = format!("// @fn {} [expanded.rs:{}-{}]\n", f.id(), f.line, f.end_line);
@@ -592,7 +618,7 @@ pub fn emit_unit(db: &Db, contracts: &serde_json::Value, unit: &str) -> UnitOut 
         }
         // contract variants: the same verbatim body checked under a different (wider / special-point) domain
         if !manual_mode && !f.is_std_op() && f.trait_.as_deref() != Some("Clone") {
-            if let Some(vars) = contracts["variants"][f.name.as_str()].as_array() {
+            if let Some(vars) = contracts["variants"][format!("{}{}", f.prefix, f.name).as_str()].as_array() {
                 for v in vars {
                     let suffix = v["suffix"].as_str().unwrap_or("v");
                     let order = contracts["order"][f.ty.as_str()].as_i64().unwrap_or(0);
